@@ -55,7 +55,7 @@ def strategy(tier):
     )
 
 
-def run_case(case):  # pylint: disable=too-many-locals,too-many-branches,too-many-statements
+def run_case(case, observer=None):  # pylint: disable=too-many-locals,too-many-branches,too-many-statements
     Container = container_class(case.get('lowered'))
     from disk_objectstore.container import ObjectType
     from disk_objectstore.exceptions import NotExistent
@@ -178,6 +178,8 @@ def run_case(case):  # pylint: disable=too-many-locals,too-many-branches,too-man
                 seen = {}
                 with cont.get_objects_stream_and_meta(request, skip_if_missing=False) as triplets:
                     for key, stream, meta in triplets:
+                        if observer is not None:
+                            observer('triplet', root, len(handles), log)
                         if stream is None:
                             seen[key] = None
                             continue
@@ -217,6 +219,12 @@ def run_case(case):  # pylint: disable=too-many-locals,too-many-branches,too-man
                 if raised_in_library(exc):
                     raise viol(f'op-raised:{op["k"]}:{type(exc).__name__}', f'{op["k"]} through a valid handle raised {exc!r} ({library_frame(exc)})') from exc
                 raise
+            if observer is not None:
+                observer('after-op', root, len(handles), log)
+        for handle in handles:
+            handle.close()
+        if observer is not None:
+            observer('closed', root, len(handles), log)
     finally:
         for handle in handles:
             handle.close()
